@@ -37,14 +37,24 @@ def r1(c):
          'parse_header runs only when cursor.len() >= HEADER_LENGTH', '', ph.loc())
     c.ob('const/HEADER_LENGTH', P.const('rodbus::tcp::frame::constants::HEADER_LENGTH') == 7, 'HEADER_LENGTH = 7', str(P.const('rodbus::tcp::frame::constants::HEADER_LENGTH')))
 
+    def header_part(o, idx):
+        """the operand is component idx of the header being received: of the Header state, or of what parse_header just
+        returned (which is what gets stored) -- every definition that can reach the use must be one of the two"""
+        alts = q.sem_alts(b, o)
+        def one_ok(s):
+            j = ''.join(s.proj)
+            if q.sem_is_name(b, s, 'self') and ':Header' in j and ('field:%d:' % idx) in j:
+                return True
+            return s.kind == 'call' and s.cs is ph and q.has_success(s.proj) and s.proj and s.proj[-1].startswith('field:%d:' % idx)
+        return bool(alts) and all(one_ok(s) for s in alts)
+
     def is_adu(o):
-        s = q.sem(b, o)
-        return q.sem_is_name(b, s, 'self') and ':Header' in ''.join(s.proj) and 'field:1:' in ''.join(s.proj)
-    c.ob('body/complete', len_ge_fact(b, pb.node, facts, is_adu), 'parse_body runs only when cursor.len() >= the ADU length stored in the Header state', '', pb.loc())
+        return header_part(o, 1)
+    c.ob('body/complete', len_ge_fact(b, pb.node, facts, is_adu), 'parse_body runs only when cursor.len() >= the ADU length of the header being received', '', pb.loc())
     s = q.sem(b, pb.args[1])
-    c.ob('body/length', is_adu(pb.args[1]), 'parse_body is asked for exactly that stored ADU length', repr(s), pb.loc())
+    c.ob('body/length', is_adu(pb.args[1]), 'parse_body is asked for exactly that ADU length', repr(q.sem_alts(b, pb.args[1])), pb.loc())
     h = q.sem(b, pb.args[0])
-    c.ob('body/header', q.sem_is_name(b, h, 'self') and ':Header' in ''.join(h.proj) and 'field:0:' in ''.join(h.proj), 'parse_body gets the stored header', repr(h), pb.loc())
+    c.ob('body/header', header_part(pb.args[0], 0), 'parse_body gets the header being received', repr(q.sem_alts(b, pb.args[0])), pb.loc())
     # incomplete -> Ok(None) without consuming: the complementary edges reach no cursor-consuming call
     consuming = (RB + '::read', RB + '::read_u8', RB + '::read_u16_be', RB + '::read_u16_le')
     inparse = [cs for cs in b.calls(*consuming)]
